@@ -7,8 +7,9 @@ import json, os, subprocess, sys, time
 from concurrent.futures import ThreadPoolExecutor
 VERIF = os.path.dirname(os.path.dirname(os.path.abspath(__file__)))
 RUNNER = os.path.join(VERIF, "harness", "target", "release", "runner")
-ARMS = ["par-free", "par-free-wide", "par-cutoff", "par-flaky", "par-threads", "par-threads-cutoff", "par-cache", "par-dom", "par-primal", "seq-free", "seq-sweep", "seq-sweep-nodup",
-        "dd-history", "dd-history-narrow", "fringe-history", "store-history", "dom-history"]
+ARMS = ["par-free", "par-free-wide", "par-cutoff", "par-flaky", "par-threads", "par-threads-cutoff", "par-cache", "par-dom", "par-primal", "par-primal-cache", "par-longarc", "par-sweep",
+        "par-preempt-sweep", "par-preempt-sweep-cutoff", "seq-free", "seq-sweep", "seq-sweep-nodup", "seq-longarc",
+        "dd-history", "dd-history-narrow", "dd-history-longarc", "fringe-history", "store-history", "dom-history"]
 
 def digests(arm, seed, a, b):
     r = subprocess.run([RUNNER, "digest", "--arm", arm, "--seed", str(seed), "--from", str(a), "--to", str(b)], stdout=subprocess.PIPE, stderr=subprocess.DEVNULL, text=True)
